@@ -9,8 +9,8 @@ from collections import Counter
 from lib import Raw, coqlit
 
 HEADER = ('From Coq Require Import List NArith Bool.\nImport ListNotations.\n'
-          'From SDC Require Import Location.Quote Location.Loc Location.Gen_Loc.\nOpen Scope N_scope.')
-DEPS = ['Location/Gen_Loc.vo']
+          'From SDC Require Import Location.Quote Location.Loc Location.Prov Location.Gen_Loc.\nOpen Scope N_scope.')
+DEPS = ['Location/Gen_Loc.vo', 'Location/Prov.vo']
 K = 'loc_consts'
 
 RESERVED = list(" /%&=+;#?:@[]~._-!$'()*,\\\"<>|^`{}")
@@ -46,6 +46,15 @@ def parse_lit(p):
     if 'err' in p:
         return '(None, 0)' if p['err'] == 'scheme' else '(None, 1)'
     return f'(Some (mkLoc {bl(p["root"])} [{"; ".join(obl(v) for v in p["vals"])}]), 2)'
+
+
+def b_(s):
+    return None if s is None else list(s.encode('utf-8'))
+
+
+PROV_T = ('option (list (option bytes) * list ident * option (list bytes * list parse_res * list (option bool)))')
+PROV_EQB = ('option_eqb (prod_eqb (prod_eqb (list_eqb opt_bytes_eqb) (list_eqb ident_eqb)) (option_eqb (prod_eqb (prod_eqb '
+            '(list_eqb bytes_eqb) (list_eqb parse_res_eqb)) (list_eqb (option_eqb Bool.eqb)))))')
 
 
 # ----------------------------------------------------------------------------- generators
@@ -278,11 +287,159 @@ def gen_foreign(rng, consts, hist):
     return {'self': me, 'services': services}
 
 
+# ----------------------------------------------------------------------------- several scopes per service / provider path
+def gen_distinct_vals(rng, n_el, avoid=()):
+    """Element values that are present with p=0.75, non-empty and pairwise DISTINCT (so that swaps show)."""
+    while True:
+        used, vals = set(avoid), []
+        for _ in range(n_el):
+            if rng.random() < 0.25:
+                vals.append(None)
+                continue
+            while True:
+                v = gen_value(rng)
+                if v and v not in used:
+                    break
+            used.add(v)
+            vals.append(v)
+        if any(v is not None for v in vals):
+            return vals
+
+
+def encloses(pvals, tvals):
+    return all(pv is None or pv == tv for pv, tv in zip(pvals, tvals))
+
+
+def render_loc_scope(rng, consts, root, vals):
+    """The two renderings the library itself produces for a location (scope_string / mk_scopes)."""
+    present = [(e, v) for e, v in zip(consts['elements'], vals) if v]
+    if rng.random() < 0.5:
+        seg = '%2F'.join(q(v or '') for v in vals)
+        qs = urllib.parse.urlencode(dict(present))
+        rq = q(root, safe='/')
+    else:
+        seg = q('/'.join(q(v or '') for v in vals))
+        qs = urllib.parse.urlencode(dict(present), quote_via=urllib.parse.quote, safe='')
+        rq = q(root)
+    return f'{consts["scheme"]}:/{rq}/{seg}' + ('?' + qs if qs else '')
+
+
+OTHER_SCOPES = ['sdc.mds.pkp:1.2.840.10004.20701.1.1', 'sdc.cdc.type:/urn:oid:1.2/12345', 'sdc.ctxt.opr:/r/e', 'http://h/p?fac=x',
+                'urn:x', '', 'sdc.ctxt.ens:/biceps.uri.unk/e?fac=a']
+BAD_LOC_SCOPES = ['sdc.ctxt.loc:', 'sdc.ctxt.loc:/a', 'sdc.ctxt.loc:/a/b/c', 'sdc.ctxt.loc:a/b', 'sdc.ctxt.loc://[x/a/b',
+                  'sdc.ctxt.loc:/a/b/c/d?fac=x', 'SDC.CTXT.LOC:/onlyroot']
+
+
+def gen_multi(rng, consts, hist):
+    """Services that publish SEVERAL location scopes (0..3) mixed with foreign / malformed scopes; the expected
+    verdict follows from the statement alone: kept iff some location scope is for a location the own one encloses."""
+    n_el = len(consts['elements'])
+    default_root = consts['default_root']
+    base = gen_distinct_vals(rng, n_el)
+    r = rng.random()
+    if r < 0.55:
+        me_vals = [v if rng.random() < 0.5 else None for v in base]
+    elif r < 0.7:
+        me_vals = list(base)
+    else:
+        me_vals = [v if rng.random() < 0.6 else None for v in base]
+        i = rng.randrange(n_el)
+        me_vals[i] = (base[i] or '') + rng.choice(['x', '?', ' '])
+    me_root = None if rng.random() < 0.85 else 'myroot'
+    services, expect = [], []
+    for _ in range(rng.randint(1, 3)):
+        if rng.random() < 0.06:
+            services.append(None)
+            expect.append(False)
+            continue
+        entries = []
+        n_loc = rng.choice([0, 1, 2, 2, 3, 3])
+        for _k in range(n_loc):
+            r = rng.random()
+            if r < 0.4:
+                tv, kind = list(base), 'base'
+            elif r < 0.75:
+                tv, kind = list(base), 'one-differs'
+                i = rng.randrange(n_el)
+                tv[i] = (tv[i] + 'y') if tv[i] and rng.random() < 0.7 else (None if tv[i] else 'zz')
+                if not any(tv):
+                    tv[i] = 'zz'
+            elif r < 0.85:
+                tv, kind = list(base), 'swapped'
+                i, j = rng.sample(range(n_el), 2)
+                tv[i], tv[j] = tv[j], tv[i]
+            else:
+                tv, kind = gen_distinct_vals(rng, n_el), 'random'
+            root = default_root if rng.random() < 0.8 else rng.choice(['myroot', 'urn:oid:1.2', 'r t'])
+            inside = (root == (default_root if me_root is None else me_root)) and encloses(me_vals, tv)
+            entries.append((render_loc_scope(rng, consts, root, tv), inside, kind))
+        for _k in range(rng.choice([0, 0, 1, 2])):
+            t = rng.choice(OTHER_SCOPES + BAD_LOC_SCOPES)
+            if rng.random() < 0.3:      # the matching location, but under another scheme: must not count
+                t = render_loc_scope(rng, consts, default_root, base).replace(consts['scheme'] + ':', 'sdc.ctxt.opr:', 1)
+            entries.append((t, False, 'noise'))
+        rng.shuffle(entries)
+        services.append([e[0] for e in entries])
+        expect.append(any(e[1] for e in entries))
+        pos = [i for i, e in enumerate(entries) if e[1]]
+        hist[f'multi:loc-scopes={n_loc}'] += 1
+        hist[f'multi:scopes={min(len(entries), 5)}'] += 1
+        hist['multi:first-match-at=' + (str(pos[0]) if pos else 'none')] += 1
+        hist[f'multi:matching={len(pos)}'] += 1
+    return {'self': {'root': me_root, 'vals': me_vals}, 'services': services, 'expect': expect}
+
+
+EXTRA_ROOTS = ['urn:oid:1.3.6.1.4.1.99', 'myroot', 'a/b', '', None, 'r t', 'é', 'sdc.ctxt.loc.detail2']
+EXTRA_EXTS = ['ward-7/bed-3', 'e', 'x y', None, '', '?q=1', 'é']
+INITS = ['fresh', 'detail-none', 'updated-before', 'none-then-updated', 'idents-before']
+
+
+def gen_provider(rng, consts, hist):
+    n_el = len(consts['elements'])
+    vals = gen_distinct_vals(rng, n_el)
+    init = rng.choice(INITS)
+    c = {'vals': vals, 'init': init, 'prior': None, 'extra': []}
+    if init in ('updated-before', 'none-then-updated'):
+        c['prior'] = gen_distinct_vals(rng, n_el, avoid=[v for v in vals if v])
+    n_extra = rng.choice([0, 0, 1, 1, 2]) if init != 'idents-before' else rng.choice([1, 2])
+    for k in range(n_extra):
+        c['extra'].append({'root': rng.choice(EXTRA_ROOTS), 'ext': rng.choice(EXTRA_EXTS), 'at': rng.randint(0, k + 1)})
+    present = [i for i, v in enumerate(vals) if v is not None]
+    probes = [{'root': None, 'vals': list(vals)}, {'root': None, 'vals': [None] * n_el}]
+    for i in present:
+        probes.append({'root': None, 'vals': [vals[i] if j == i else None for j in range(n_el)]})      # enclosing
+        d = list(vals)
+        d[i] = vals[i] + rng.choice(['?', 'x', ' '])
+        probes.append({'root': None, 'vals': d})                                                       # differs in i
+        j = rng.choice([j for j in range(n_el) if j != i])
+        probes.append({'root': None, 'vals': [vals[i] if k == j else None for k in range(n_el)]})      # value in the wrong slot
+    probes.append({'root': None, 'vals': [v if rng.random() < 0.5 else None for v in vals]})
+    if c['extra'] and rng.random() < 0.7:
+        x = rng.choice(c['extra'])
+        probes.append({'root': x['root'] if x['root'] is not None else 'biceps.uri.unk', 'vals': [v if rng.random() < 0.5 else None for v in vals]})
+    if rng.random() < 0.3:
+        probes.append({'root': 'otherroot', 'vals': [None] * n_el})
+    c['probes'] = probes
+    hist['provider:init=' + init] += 1
+    hist[f'provider:extra-idents={n_extra}'] += 1
+    hist[f'provider:elements-set={len(present)}'] += 1
+    return c
+
+
 # ----------------------------------------------------------------------------- run
 def run(ctx):
-    if not ctx.regenerate('gen_location_consts', 'Location/Gen_Loc.v'):
-        return ctx.finish('translator failed', [], [])
-    consts = ctx.impl('gen_location_consts', {})
+    # a translator that fails closed marks the run as broken; the oracles below still run on the implementation
+    # (with the constants read directly) so that a concrete failing input is found; the model is not consulted then
+    model_ok = ctx.regenerate('gen_location_consts', 'Location/Gen_Loc.v')
+    consts = ctx.impl('gen_location_consts', {}) if model_ok else {}
+    if 'elements' not in consts:
+        model_ok = False
+        base = ctx.impl('c16_impl', {})
+        if base.get('_crash'):
+            ctx.broken('correspondence', 'implementation run', base['stderr'])
+            return ctx.finish('implementation cannot be loaded', [], [])
+        consts = {'elements': base['elements'], 'scheme': base['scheme'], 'default_root': base['default_root'],
+                  'ident_root': base['ident_root'] or base['default_root']}
     n_el = len(consts['elements'])
     default_root = consts['default_root']
     if not ctx.prove():
@@ -316,21 +473,29 @@ def run(ctx):
                     {'self': {'root': None, 'vals': [None] * n_el}, 'services': [['sdc.ctxt.loc://[x/a/b']]},
                     {'self': {'root': None, 'vals': [None] * n_el}, 'services': [['sdc.ctxt.loc://a℀b/x/y']]}]
 
+    n_fo_plain = len(fo_cases)
+    fo_cases += [gen_multi(ctx.rng, consts, fhist) for _ in range(ctx.n(1500, 30000))]
+    phist = Counter()
+    pr_cases = [gen_provider(ctx.rng, consts, phist) for _ in range(ctx.n(900, 15000))]
+
     t0 = time.time()
-    impl = ctx.impl('c16_impl', {'roundtrip': rt_cases, 'published': pub_cases, 'foreign': fo_cases}, timeout=1200)
-    ctx.log(f'implementation run: {time.time() - t0:.1f}s for {len(rt_cases)}+{len(pub_cases)}+{len(fo_cases)} cases')
+    impl = ctx.impl('c16_impl', {'roundtrip': rt_cases, 'published': pub_cases, 'foreign': fo_cases, 'provider': pr_cases},
+                    timeout=1200)
+    ctx.log(f'implementation run: {time.time() - t0:.1f}s for {len(rt_cases)}+{len(pub_cases)}+{len(fo_cases)}+{len(pr_cases)} cases')
     if impl.get('_crash'):
         ctx.broken('correspondence', 'implementation run', impl['stderr'])
         return ctx.finish('implementation run crashed', [], [])
 
-    exe, log = ctx.ocaml_driver('Extract/Extract_Location.v', 'location_model', 'driver_c16')
-    if exe is None:
+    exe, log = ctx.ocaml_driver('Extract/Extract_Location.v', 'location_model', 'driver_c16') if model_ok else (None, '')
+    if exe is None and model_ok:
         ctx.broken('correspondence', 'extraction/driver build', log[-1500:])
     n_coq = ctx.n(60, 400)           # per stream: cases additionally evaluated inside Coq (cross-check of the extraction)
 
     def compare(stream, items, eqb, runf, describe):
         """items: list of dicts {line, want, lit_in, lit_out, info}.  Full volume through the extracted model,
         the first n_coq through vm_compute inside Coq."""
+        if not model_ok:
+            return
         if exe:
             out = subprocess.run([exe], input='\n'.join(it['line'] for it in items) + '\n', capture_output=True,
                                  text=True, timeout=1800)
@@ -468,7 +633,7 @@ def run(ctx):
 
     # ------------------------------------------------------------------ stream 3: foreign scopes into the filter
     items, keys, pitems = [], [], []
-    n_oom = n_raise = 0
+    n_oom = n_raise = n_multi_claims = n_multi_fail = 0
     kept_hist = Counter()
     pkinds = Counter()
     seen_scopes = set()
@@ -484,6 +649,27 @@ def run(ctx):
                       'oracle': {'verdict': 'fail', 'clause': 'filter_services_inside never raises'}})
         else:
             kept_hist[len(r['kept'])] += 1
+            for i, sc in enumerate(c['services']):
+                got = i in r['kept']
+                per_scope = [] if sc is None else [r['match'][t] for t in sc]
+                # a service with several scopes is inside iff SOME scope is (each judged alone by the implementation)
+                if not any(isinstance(m, str) for m in per_scope) and got != any(per_scope):
+                    n_multi_fail += 1
+                    ctx.fail(f'filter_services_inside {"keeps" if got else "drops"} a service whose scopes {sc} are judged '
+                             f'{per_scope} one by one (own location {c["self"]})',
+                             {'stream': 'foreign', 'clause': 'some-scope-inside', 'kept': got},
+                             {'stream': 'foreign', 'case': c, 'service': i, 'per_scope': per_scope,
+                              'impl_trace': {'kept': r['kept'], 'match': r['match']},
+                              'oracle': {'verdict': 'fail', 'clause': 'service inside iff some scope inside'}})
+                if 'expect' in c:
+                    n_multi_claims += 1
+                    if got != c['expect'][i]:
+                        ctx.fail(f'a service publishing {sc} must {"" if c["expect"][i] else "not "}be inside {c["self"]}: '
+                                 f'filter_services_inside {"keeps" if got else "drops"} it',
+                                 {'stream': 'multi', 'clause': 'inside' if c['expect'][i] else 'not-inside'},
+                                 {'stream': 'foreign', 'case': c, 'service': i, 'impl_trace': {'kept': r['kept'], 'match': r['match']},
+                                  'oracle': {'verdict': 'fail', 'clause': 'inside own / enclosing location iff some published '
+                                                                          'location scope is; no other scope counts'}})
         clean = all(r['clean'][t] for t in flat)
         for t in flat:
             if t not in seen_scopes:
@@ -522,14 +708,110 @@ def run(ctx):
     runf = f"fun c => let '(me, svs, badl) := c in run_foreign {K} true badl me svs"
     compare('foreign', items, 'option_eqb (list_eqb service_eqb)', runf, lambda it: {'case': it['case'], 'impl': it['impl']})
     ctx.count('foreign', len(fo_cases), keys, compared_with_model=len(items), out_of_model_invalid_utf8=n_oom,
-              impl_raised=n_raise, kept_histogram={str(k_): v for k_, v in sorted(kept_hist.items())},
+              impl_raised=n_raise, several_scope_cases=len(fo_cases) - n_fo_plain, several_scope_claims=n_multi_claims,
+              kept_histogram={str(k_): v for k_, v in sorted(kept_hist.items())},
               generator_histogram=dict(sorted(fhist.items())))
     runp = f"fun c => run_parse {K} (fst c) (snd c)"
     compare('foreign-parse', pitems, 'parse_res_eqb', runp, lambda it: {'scope': it['scope'], 'impl': it['impl']})
     ctx.count('foreign-parse', len(pitems), [it['scope'] for it in pitems], parse_outcomes=dict(sorted(pkinds.items())),
               distinct_scopes=len(seen_scopes), out_of_model_invalid_utf8=len(seen_scopes) - len(pitems))
+    # ------------------------------------------------------------------ stream 5: provider path end to end
+    ident_root = consts['ident_root']
+    items, keys = [], []
+    pverd = Counter()
+    n_claims = 0
+
+    def identlit(root, ext):
+        return f'(mkIdent {oblit(root)} {oblit(ext)})'
+
+    def plit(p):
+        return loclit(p, default_root)
+    for c, r in zip(pr_cases, impl['provider']):
+        sig = {'stream': 'provider', 'init': c['init']}
+
+        def pfail(msg, clause, **extra):
+            ctx.fail(msg, dict(sig, clause=clause), dict({'stream': 'provider', 'case': c, 'impl_trace': r,
+                                                          'oracle': {'verdict': 'fail', 'clause': clause}}, **extra))
+        want_vals = [b_(v) for v in c['vals']]
+        if r['state'] != 'ok':
+            pfail(f'location {c["vals"]} ({c["init"]}): {r["state"]} on the way to the published scopes', 'published-defined')
+        else:
+            d = r['detail']
+            got_vals = None if d is None else [d[3], d[4], d[5], d[0], d[1], d[2]]      # Facility, Building, Floor, PoC, Room, Bed
+            if got_vals != want_vals:
+                pfail(f'update_from_sdc_location ({c["init"]}) of {c["vals"]} leaves LocationDetail '
+                      f'(fac, bldng, flr, poc, rm, bed) = {[None if v is None else bytes(v).decode() for v in (got_vals or [])]}',
+                      'state-copy')
+            ids = [None]                                  # None = the fallback identifier written by the update
+            if c['init'] != 'idents-before':
+                for x in c['extra']:
+                    ids.insert(x['at'], x)
+            if len(r['texts']) != len(ids):
+                pfail(f'{len(r["texts"])} location scopes published for {len(ids)} identifications', 'one-scope-per-identification')
+            else:
+                for x, text, p in zip(ids, r['texts'], r['parse']):
+                    n_claims += 1
+                    if 'err' in p:
+                        if x is None:
+                            pfail(f'published scope {text!r} of {c["vals"]} is not parsed back: {p}', 'readback')
+                        continue
+                    want_root = b_(ident_root if x is None else ('biceps.uri.unk' if x['root'] is None else x['root']))
+                    if p['vals'] != want_vals or (x is None and p['root'] != want_root):
+                        pfail(f'location {c["vals"]} ({c["init"]}) is published as {text!r}, which reads back as '
+                              f'{[None if v is None else bytes(v).decode() for v in p["vals"]]} root {bytes(p["root"]).decode()!r}',
+                              'readback', scope=text)
+            roots = [ident_root] + [('biceps.uri.unk' if x['root'] is None else x['root'])
+                                    for x in ids if x is not None and x['ext'] and x['root'] != '']   # '' root: '//ext' is an authority
+            for p, got in zip(c['probes'], r['kept']):
+                n_claims += 1
+                pverd[str(got)] += 1
+                if isinstance(got, str):
+                    pfail(f'filter_services_inside raised on the scopes published by mk_scopes: {r["texts"]}', 'total', probe=p)
+                    continue
+                want = (default_root if p['root'] is None else p['root']) in roots and encloses(p['vals'], c['vals'])
+                if got != want:
+                    pfail(f'provider at {c["vals"]} ({c["init"]}, scopes {r["texts"]}) must {"" if want else "not "}be found '
+                          f'inside {p}: filter_services_inside says {got}', 'inside' if want else 'not-inside', probe=p)
+        # model side
+        if c['init'] == 'idents-before':
+            st0 = f'(mkPState [{"; ".join(identlit(x["root"], x["ext"]) for x in c["extra"])}] (Some empty_detail))'
+            extras = '[]'
+        else:
+            st0 = '(mkPState [] None)' if c['init'] in ('detail-none', 'none-then-updated') else '(mkPState [] (Some empty_detail))'
+            extras = '[' + '; '.join(f'({x["at"]}%nat, {identlit(x["root"], x["ext"])})' for x in c['extra']) + ']'
+        prior = '(@None loc)' if c['prior'] is None else f'(Some {plit({"root": None, "vals": c["prior"]})})'
+        others = r.get('others', [])
+        badl = [t for t, v in zip(r.get('texts', []), r.get('split', [])) if v == 'bad']
+        inp = (f'({st0}, {prior}, {plit({"root": None, "vals": c["vals"]})}, ({extras} : list (nat * ident)), '
+               f'([{"; ".join(blit(t) for t in others)}] : list bytes), [{"; ".join(plit(p) for p in c["probes"])}], '
+               f'([{"; ".join(blit(t) for t in badl)}] : list bytes))')
+        if r['state'] == 'raise':
+            exp = 'None'
+        else:
+            d = r['detail'] or [None] * 6
+            dv = '[' + '; '.join(obl(v) for v in [d[3], d[4], d[5], d[0], d[1], d[2]]) + ']' if r['detail'] is not None else '[]'
+            idl = '[' + '; '.join(f'(mkIdent {obl(a)} {obl(e)})' for a, e in r['idents']) + ']'
+            if r['state'] == 'ok':
+                x3 = ('(Some ([' + '; '.join(bl(s_) for s_ in r['scopes']) + '], [' + '; '.join(parse_lit(p) for p in r['parse']) +
+                      '], [' + '; '.join('None' if isinstance(g, str) else f'(Some {coqlit(g)})' for g in r['kept']) + ']))')
+            else:
+                x3 = 'None'
+            exp = f'(Some ({dv}, {idl}, {x3}))'
+        exp = f'({exp} : {PROV_T})'
+        items.append({'lit_in': inp, 'lit_out': exp, 'case': c, 'impl': {k_: r.get(k_) for k_ in ('state', 'texts', 'kept', 'parse')}})
+        keys.append(json.dumps(c, sort_keys=True))
+    ctx.count('provider', len(items), keys, oracle_claims=n_claims, verdicts=dict(pverd),
+              generator_histogram=dict(sorted(phist.items())))
+    if model_ok:
+        coq_jobs.append(('provider', items[:ctx.n(90, 600)], PROV_EQB,
+                         f"fun c => let '(st0, prior, l, extras, others, probes, badl) := c in "
+                         f"run_provider {K} badl st0 prior l extras others probes",
+                         lambda it: {'case': it['case'], 'impl': it['impl']}))
+    ctx.sample({'stream': 'provider', 'case': pr_cases[0], 'impl': {k_: impl['provider'][0].get(k_) for k_ in ('state', 'texts', 'kept')}})
+
     # the same models evaluated inside Coq on the head of every stream (ties the extracted code to the .v files)
-    ctx.coq_make(['Common/Corr.vo'] + DEPS)
+    if model_ok:
+        ctx.coq_make(['Common/Corr.vo'] + DEPS)
     with ThreadPoolExecutor(max_workers=4) as ex:
         for stream, sub, runf, describe, mism, err in ex.map(run_coq_job, coq_jobs):
             if err:
@@ -576,7 +858,7 @@ def replay(ctx, rep):
     if not case:
         print(json.dumps(rep, indent=1)[:4000])
         return 0
-    key = {'roundtrip': 'roundtrip', 'published': 'published', 'foreign': 'foreign'}.get(stream)
+    key = {'roundtrip': 'roundtrip', 'published': 'published', 'foreign': 'foreign', 'provider': 'provider'}.get(stream)
     if key is None:
         print(json.dumps(rep, indent=1)[:4000])
         return 0
